@@ -186,6 +186,18 @@ def install(handler, g):
             bad.append(f"gradient at x differs from the derivative by {float((gx - gw).abs().max()):.3g}")
         if not torch.allclose(y2, y, rtol=1e-12, atol=1e-12):
             bad.append("residual_apply differs from split / f / add")
+        # "for ANY branch function": an in-place branch, with and without autograd recording
+        for mode in ("grad", "no_grad", "input_without_grad"):
+            x2 = torch.randn(6, dtype=torch.float64, requires_grad=(mode == "grad"))
+            x0 = x2.detach().clone()
+            fin = lambda t: torch.relu_(t * 1.0 if mode == "grad" else t) * 0.5  # noqa: E731
+            with torch.set_grad_enabled(mode != "no_grad"):
+                r2, s2 = U.residual_split(x2, tau=tau)
+                shared = r2.data_ptr() == s2.data_ptr() or r2.data_ptr() == x2.data_ptr() or s2.data_ptr() == x2.data_ptr()
+                out = U.residual_add(torch.relu_(r2) * 0.5 if mode != "grad" else fin(r2), s2, tau=tau)
+            want2 = (x0 + tau * torch.relu(x0) * 0.5) / math.sqrt(1 + tau * tau)
+            if shared or not torch.allclose(out.detach(), want2, rtol=1e-12, atol=1e-12) or not torch.equal(x2.detach(), x0):
+                bad.append(f"[{mode}] in-place branch: residual/skip/input share storage={shared}, output error {float((out.detach() - want2).abs().max()):.3g}, caller's x changed={not torch.equal(x2.detach(), x0)}")
         return bool(bad), f"tau={tau}: " + ("; ".join(bad) or "value, gradient and residual_apply agree")
 
     def replay_c07(rj):
@@ -197,6 +209,9 @@ def install(handler, g):
         m, r = rval(w, "residual_mult", 1.3), rval(w, "residual_attn_ratio", 0.7)
         m, r = (m if m > 0 else 1.3), (r if r > 0 else 0.7)
         rule = transformer_residual_scaling_rule(m, r)
+        L0 = max(2, ival(w, "layers_of_an_earlier_call", L + 4))
+        for i in range(min(L, L0)):
+            rule(i, L0)  # the same rule object queried earlier for another depth
         taus = [rule(i, L) for i in range(L)]
         contrib = []
         for i in range(L):
@@ -303,9 +318,25 @@ def install(handler, g):
         bad = float((dy - want).abs().max()) > 1e-9
         return bad, f"{cfg['layer']} fan_in={fi}: |dy| in [{float(dy.min()):.6g}, {float(dy.max()):.6g}], expected exactly {want:.6g}"
 
+    def replay_stack(rj):
+        import unit_scaling as uu
+        from unit_scaling.core.functional import transformer_residual_scaling_rule
+
+        bad = []
+        for layers, mult, ratio in ((1, 1.0, 2.0), (2, 4.0, 1.0), (3, 1.0, 1.0), (4, 0.5, 3.0)):
+            rule = transformer_residual_scaling_rule(mult, ratio)
+            st = uu.TransformerStack(layers=layers, hidden_size=4, heads=2, is_causal=True, residual_scaling=rule)
+            for i, layer in enumerate(st):
+                want = (rule(2 * i, 2 * layers), rule(2 * i + 1, 2 * layers))
+                got = (layer.mhsa_tau, layer.mlp_tau)
+                if any(abs(g_ - w_) > 1e-12 * max(1, abs(w_)) for g_, w_ in zip(got, want)):
+                    bad.append(f"layers={layers} mult={mult} ratio={ratio} layer {i}: (attention tau, MLP tau) = {got}, the rule gives {want}")
+        return bool(bad), "; ".join(bad[:3]) or "stack taus equal rule(2i, 2L), rule(2i+1, 2L)"
+
+    handler(lambda rj: rj["job"].startswith("mod:Transformer") and rj["obligation"].startswith("C07"))(replay_stack)
     handler(lambda rj: rj["job"].startswith("c10:"))(replay_c10)
     handler(lambda rj: rj["job"].startswith("c11:"))(replay_c11)
-    handler(lambda rj: rj["job"].startswith("c06:"))(replay_c06)
+    handler(lambda rj: rj["job"].startswith("c06:") or rj["job"].startswith("core:residual"))(replay_c06)
     handler(lambda rj: rj["job"].startswith("c07:"))(replay_c07)
     handler(lambda rj: rj["job"].startswith("c12:"))(replay_c12)
     handler(lambda rj: rj["job"].startswith("core:") and not rj["job"].startswith("core:apply_constraint"))(replay_core)
